@@ -51,6 +51,11 @@ def gen_case(seed, tier="quick"):
     if k == "iv":
         ops = [o for o in ops if o not in ("rotate",)]
     r.shuffle(ops)
+    r3 = rnd(seed, "hist-extra")
+    if "c" in vol:
+        vol["as"] = r3.choice(("float", "tensor0", "tensor11"))
+    if r3.random() < 0.6:
+        ops = ops + [r3.choice(ops) for _ in range(r3.choice((1, 2, 3)))]      # the same operation more than once
     base.update(engine="volumesim", kind="hist", dom=dom, pspace=[["t", 1]] if dep else [], t=GG.q(r.uniform(0, 1)),
                 volume=vol, ops=ops, d=r.choice((3.0, 20.0)), exact_count=(k in ("iv", "circ", "par")))
     return base
